@@ -13,7 +13,7 @@ from ..runner import Entry, differential
 from . import c16_translate
 
 PRE = ("From Coq Require Import String.\nFrom EsVerif.Common Require Import Base Bytes.\n"
-       "From EsVerif.C16 Require Import Model Spec Exec.\nLocal Open Scope list_scope.\n")
+       "From EsVerif.C16 Require Import Model Spec Ext Deep Exec.\nLocal Open Scope list_scope.\n")
 
 ORD = {"<": "LE", ">": "BE", "|": "NA", "=": "NAT"}
 KIND = {"i": "KInt", "u": "KUInt", "f": "KFloat", "c": "KComplex", "b": "KBool", "S": "KBytes", "U": "KUnicode"}
@@ -87,6 +87,30 @@ def build(a):
     if describe(arr) != {"dtype": a["dtype"], "shape": a["shape"], "data": a["data"]}:
         raise HarnessFault("array does not round-trip: %r" % (a,))
     return arr
+
+
+_USER_SUBCLASS = []
+
+
+def as_klass(arr, klass):
+    """the same buffer seen as an ndarray SUBCLASS object (np.recarray / a trivial user subclass): the statement's
+    'that same object is returned' and the caller's dtype are about THIS object"""
+    import numpy as np
+    if not klass or klass == "ndarray":
+        return arr
+    if klass == "recarray":
+        v = arr.view(np.recarray)
+    elif klass == "subclass":
+        if not _USER_SUBCLASS:
+            class PlainSubclass(np.ndarray):
+                pass
+            _USER_SUBCLASS.append(PlainSubclass)
+        v = arr.view(_USER_SUBCLASS[0])
+    else:
+        raise HarnessFault("unknown array class %r" % klass)
+    if describe(v) != describe(arr):
+        raise HarnessFault("subclass view does not describe like its base: %r" % klass)
+    return v
 
 
 def describe(arr):
@@ -319,7 +343,7 @@ def array_pool(ctx, round):
                         fields.append(["u%d" % i, "u", 1, "|", r.choice([[], [3]])])
                 for sh in ([r.choice([[], [2]])] if ctx.quick() else [[], [2], [2, 2], [0]]):
                     pool.append((arr_case(r, {"fields": fields}, sh), "struct-all-subarray" if nelem(sh) else "zero-size"))
-    n = ctx.n(70, 700) if round == 0 else ctx.n(60, 300)
+    n = ctx.n(52, 700) if round == 0 else ctx.n(60, 300)
     nonzero = [sh for sh in SHAPES if nelem(sh)]
     for i in range(n):
         x = r.random()
@@ -368,7 +392,7 @@ class Convert(Entry):
 
     def impl(self, c):
         import esutil.numpy_util as nu
-        a = build(c["array"])
+        a = as_klass(build(c["array"]), c.get("klass"))
         f = getattr(nu, c["fn"])
 
         def go():
@@ -785,7 +809,7 @@ def flatten_dtype(d, prefix=""):
             for x in shape:
                 cnt *= x
             for i in range(cnt):
-                out += flatten_dtype(base, "%s%s%s." % (prefix, n, "[%d]" % i if shape else ""))
+                out += flatten_dtype(base, "%s%s." % (prefix, n))       # the model's prefix_field: "n.x", repeated
     if off != d.itemsize:
         raise Unrepresentable("dtype %r has trailing padding" % (d,))
     return out
@@ -793,6 +817,19 @@ def flatten_dtype(d, prefix=""):
 
 def describe_nested(arr):
     return {"dtype": {"fields": flatten_dtype(arr.dtype)}, "shape": [int(x) for x in arr.shape], "data": arr.tobytes().hex()}
+
+
+def ctfields(top):
+    """the nested record as the model's list of top-level fields (flattening and scan list are computed in Coq)"""
+    def mkf(n, k, s_, o, sub):
+        return "mkF %s %s %s %s %s" % (cstr(n), KIND[k], cnat(s_), ORD[o], clist(sub, cnat))
+    out = []
+    for t in top:
+        if "leaf" in t:
+            out.append("TLeaf (%s)" % mkf(*t["leaf"]))
+        else:
+            out.append("TNest %s [%s] %s" % (cstr(t["name"]), "; ".join(mkf(*f) for f in t["struct"]), cnat(nelem(t["sub"]))))
+    return "[%s]" % "; ".join(out)
 
 
 class Nested(Entry):
@@ -840,9 +877,9 @@ class Nested(Entry):
         if "err" in out:
             return "0%Z" if out["err"] == "skip" else "1%Z"
         o = out["ok"]
-        return "v_conv_top %s %s %s %s %s %s %s %s" % (
-            ml(), CONV[c["fn"]], clist(o["top"], lambda x: ORD[x]), carr(o["array"]), cbool(c["inplace"]), cbool(c["keep"]),
-            cout(o["o"][0]), cout(o["o"][1]))
+        return "v_nested1 %s %s %s %s %s %s %s %s %s" % (
+            ml(), CONV[c["fn"]], ctfields(c["top"]), clist(o["top"], lambda x: ORD[x]), carr(o["array"]),
+            cbool(c["inplace"]), cbool(c["keep"]), cout(o["o"][0]), cout(o["o"][1]))
 
     def nontrivial(self, c, out):
         if "err" in out:
@@ -1111,7 +1148,7 @@ class Sequence(Entry):
             if out.get("history_independent") is False:     # differs from the call made alone: one of the two is not the model
                 t = "(Z.lor 1 %s)" % t
             ts.append(t)
-        e = "0%Z"
+        e = heap_term(c, outs)
         for t in reversed(ts):
             e = "(Z.lor %s %s)" % (t, e)
         return e
@@ -1129,6 +1166,31 @@ class Sequence(Entry):
 
     def family(self, c):
         return c.get("family", "sequence")
+
+
+def heap_term(c, outs):
+    """the whole sequence run by the model from the INITIAL objects (Deep.run) against the observed answers"""
+    if any("ok" not in o for o in outs):
+        return "0%Z"
+    calls, obs = [], []
+    for st, out in zip(c["steps"], outs):
+        k, fn, o = cnat(st["obj"]), st["fn"], out["ok"]["o"]
+        if fn == "predicates":
+            continue
+        if st.get("refill") is not None:
+            calls.append("CRefill %s %s" % (k, chex(bytes.fromhex(st["refill"]))))
+            obs.append("ANone")
+        if fn in CONV:
+            ip, kd = (False, False) if st.get("call") == "default" else (st["inplace"], st["keep"])
+            calls.append("CConv %s %s %s %s" % (CONV[fn], k, cbool(ip), cbool(kd)))
+            obs.append("AConv %s %s" % (cout(o[0]), cout(o[1])))
+        elif fn == "rec_to_native":
+            calls.append("CRecNative %s" % k)
+            obs.append("AConv %s %s" % (cout(o[0]), cout(o[1])))
+        else:
+            calls.append("CNativeInplace %s" % k)
+            obs.append("AArr2 %s %s" % (carr(o[0]), carr(o[1])))
+    return "(v_heap %s [%s] [%s] [%s])" % (ml(), "; ".join(carr(a) for a in c["objects"]), "; ".join(calls), "; ".join(obs))
 
 
 def sweep_sequences():
@@ -1162,7 +1224,43 @@ def sweep_sequences():
     return cs
 
 
-ENTRIES = [Convert(), NativeInplace(), Predicates(), Descr(), RecNative(), ViewConvert(), Nested(), Sequence()]
+class SubclassConvert(Convert):
+    """the four functions x inplace x keep_dtype on ndarray SUBCLASS objects (np.recarray, a trivial user subclass): the
+    object handed in must be the object relabelled and returned (np.asarray(obj) of such an object is a NEW base-class
+    view: swapping through it leaves the caller's object with the old dtype over swapped bytes)"""
+    name = "subclass"
+
+    def cases(self, ctx, round=0):
+        r = ctx.rng
+        cs = []
+        arrays = []
+        for i in range(ctx.n(12, 90)):
+            x = r.random()
+            if x < 0.3:
+                k, s = r.choice([t for t in NUMERIC + UNICODE if has_order(*t)])
+                spec, fam = {"plain": [k, s, r.choice(["<", ">", "="])]}, "plain"
+            else:
+                spec = gen_struct(r, "uniform" if x < 0.55 else "with-na" if x < 0.9 else "mixed", nf=r.randrange(1, 4))
+                fam = struct_mode(spec)
+            sh = r.choice([[], [2], [3], [2, 2]])
+            if rowsize(spec) * nelem(sh) > 300:
+                sh = [1]
+            arrays.append((arr_case(r, spec, sh), fam))
+        for i, (a, fam) in enumerate(arrays):
+            klasses = ["recarray", "subclass"] if not ctx.quick() else [["recarray", "subclass"][i % 2]]
+            for kl in klasses:
+                for f in FNS:
+                    for ip in (False, True):
+                        for kd in (False, True):
+                            cs.append({"fn": f, "inplace": ip, "keep": kd, "array": a, "klass": kl, "family": "%s:%s" % (kl, fam)})
+        return cs
+
+    def show(self, c):
+        return Convert.show(self, c)
+
+
+ENTRIES = [Convert(), NativeInplace(), Predicates(), Descr(), RecNative(), ViewConvert(), Nested(), Sequence(),
+           SubclassConvert()]
 
 TRUSTED = [
     "Coq 8.16.1 kernel (coqc, vm_compute; no native_compute); every C16 theorem is closed under the global context (no axioms)",
